@@ -17,11 +17,11 @@ def places_for(tier):
             return ["cap0", "dirtyhole"] if tier == "quick" else ["cap0", "dirtyhole", "ba-hole", "al64"]
         if form == "xobj-same":
             return ["cap0", "ba-cap0"]
-        if form in ("xobj-other", "xobj-ctx", "xobj-kind", "xobj-view"):
+        if form in ("xobj-other", "xobj-ctx", "xobj-kind", "xobj-view", "xobj-twin"):
             return ["cap0", "dirtyhole"]
         if form in ("xobj-nested", "xobj-nested-view"):
             return ["dirtyhole", "cap0"]
-        if form == "xobj-slack":
+        if form in ("xobj-slack", "xobj-capslack"):
             return ["dirtybig", "cap0"]
         if form in ("ref-same", "ref-foreign"):
             return ["cap0", "ba-cap0"]
